@@ -263,6 +263,12 @@ def _shard_main(args):
         return ('ok', col.dump())
     except BaseException as e:    # noqa
         return ('err', '%r\n%s' % (e, traceback.format_exc()))
+    finally:
+        try:
+            from . import boot
+            boot.drop_other_fs()
+        except Exception:
+            pass
 
 
 # ------------------------------------------------------------------------------
